@@ -273,18 +273,18 @@ func mkPreempt5(name string) c14Scenario {
 
 type c14Run struct {
 	executions, maxPoints, lockOps int
-	outcomes    map[string]bool
-	found       []mc.Found
-	fpSeen      map[string]int
-	harness     []string
-	complete    bool
-	perScenario map[string]int
-	samples     []interface{}
-	tainted     bool
-	retries     int
-	retryWhy    []string
-	nondet      int
-	incomplete  []string
+	outcomes                       map[string]bool
+	found                          []mc.Found
+	fpSeen                         map[string]int
+	harness                        []string
+	complete                       bool
+	perScenario                    map[string]int
+	samples                        []interface{}
+	tainted                        bool
+	retries                        int
+	retryWhy                       []string
+	nondet                         int
+	incomplete                     []string
 }
 
 type c14Replay struct {
@@ -674,7 +674,6 @@ func init() {
 	registerCheck(&CheckDef{Prop: "C14", Level: "model_checking", Technique: "stateless model checking of the implementation: depth-first enumeration of all lock-granularity interleavings of the real goroutine bodies under a cooperative scheduler, preemption bounded", Custom: checkC14, Replay: replayC14,
 		Assumptions: []string{"scheduling points are the acquisitions of pkg/locking mutexes; unlocked shared accesses and memory-model effects are outside (race detector territory)", "2-3 threads with 1-2 operations each per scenario"}})
 }
-
 
 // C14Determinism runs the default schedule (or the given prefix) of one scenario n times and reports the first
 // scheduling point at which two runs differ (debugging aid).
